@@ -16,10 +16,12 @@ BACKENDS = ("pydantic", "fallback")
 
 
 class Worker:
-    def __init__(self, backend: str):
+    def __init__(self, backend: str, extra_env: dict | None = None):
         self.backend = backend
+        env = translate_schema.backend_env(backend)
+        env.update(extra_env or {})
         self.p = subprocess.Popen(
-            [sys.executable, str(WORKER)], env=translate_schema.backend_env(backend),
+            [sys.executable, str(WORKER)], env=env,
             stdin=subprocess.PIPE, stdout=subprocess.PIPE, stderr=subprocess.DEVNULL, text=True, bufsize=1,
         )
 
@@ -58,7 +60,8 @@ def _close_all():
 def both(op: str, cases: list) -> list[dict]:
     """run the batch under both backends (the two workers run concurrently): [{"pydantic":…, "fallback":…}]"""
     ws = [worker(b) for b in BACKENDS]
-    data = json.dumps({"op": op, "cases": cases}, ensure_ascii=True) + "\n"
+    # every fourth case under DEBUG logging with a NullHandler (HARDEN2 class A)
+    data = json.dumps({"op": op, "cases": cases, "debug_every": 4}, ensure_ascii=True) + "\n"
     for w in ws:
         w.p.stdin.write(data)
         w.p.stdin.flush()
@@ -99,13 +102,14 @@ def magic() -> dict:
     return _SCHEMA["magic"]
 
 
-def fresh_both(op: str, batches: list[list]) -> list[list[dict]]:
+def fresh_both(op: str, batches: list[list], envs: list | None = None) -> list[list[dict]]:
     """each batch in its OWN pair of freshly started worker processes (state a backend carries from
     one call to the next — caches keyed too coarsely — depends on what ran first in the process)"""
-    pairs = [[Worker(b) for b in BACKENDS] for _ in batches]
+    envs = envs or [None] * len(batches)
+    pairs = [[Worker(b, e) for b in BACKENDS] for e in envs]
     try:
         for ws, cases in zip(pairs, batches):
-            data = json.dumps({"op": op, "cases": cases}, ensure_ascii=True) + "\n"
+            data = json.dumps({"op": op, "cases": cases, "debug_every": 3}, ensure_ascii=True) + "\n"
             for w in ws:
                 w.p.stdin.write(data)
                 w.p.stdin.flush()
